@@ -604,7 +604,8 @@ class ChemicalIndexer(Indexer):
     
     def copy_like(self, other):
         if self is other: return
-        if self.chemicals is other.chemicals:
+        if self.data is other.data: pass # Linked flows: nothing to copy
+        elif self.chemicals is other.chemicals:
             self.data.copy_like(other.data)
         else:
             self.empty()
@@ -778,7 +779,7 @@ class MaterialIndexer(Indexer):
         return self.data.sum(0)
     
     def copy_like(self, other):
-        if self is other: return
+        if self is other or self.data is other.data: return # Same object or linked flows: nothing to copy
         phase_indexer = self._phase_indexer
         if isinstance(other, ChemicalIndexer):
             self.empty()
